@@ -281,3 +281,53 @@ def explore_claim(body, max_paths=24):
     for path, res in explore(body, max_paths=max_paths):
         out.append((list(path.conds), res))
     return out
+
+
+def equalities_subst(conds):
+    """{Symbol: expression} from the conditions a path decided TRUE that are equalities -- sympy Eq(a, b) and the exact numpy
+    predicate np.array_equal -- so that a residual is judged on that path modulo them (an exact-key cache hit returns a
+    value computed from the equal, earlier input)."""
+    sub = {}
+
+    def add(a, b):
+        a, b = sp.sympify(a).xreplace(sub), sp.sympify(b).xreplace(sub)
+        if a == b:
+            return
+        # replace the primed / later-named symbol by the other side
+        for x, y in ((a, b), (b, a)):
+            if isinstance(x, sp.Symbol) and x not in y.free_symbols and (x.name.endswith(PRIME) or not isinstance(y, sp.Symbol) or not y.name.endswith(PRIME)):
+                for k in list(sub):
+                    sub[k] = sub[k].xreplace({x: y})
+                sub[x] = y
+                return
+        # a - b linear in exactly one primed symbol: solve for it
+        d = sp.expand(a - b)
+        pr = [x for x in d.free_symbols if x.name.endswith(PRIME)]
+        if len(pr) == 1:
+            x = pr[0]
+            c1 = sp.diff(d, x)
+            if c1 != 0 and not c1.free_symbols:
+                y = sp.expand(x - d / c1)
+                for k in list(sub):
+                    sub[k] = sub[k].xreplace({x: y})
+                sub[x] = y
+    for cond, d in conds:
+        if not isinstance(cond, sp.Basic):
+            continue
+        if isinstance(cond, sp.Eq) and d:
+            lhs, rhs = cond.args
+            if isinstance(lhs, sp.Function) and type(lhs).__name__.startswith("np_array_equal") and rhs == 1:
+                base, _, ar = type(lhs).__name__.partition("__")
+                try:
+                    n1, n2 = (int(x) for x in ar.split("_"))
+                except ValueError:
+                    continue
+                cells = list(lhs.args)
+                if n1 == n2:
+                    for a, b in zip(cells[:n1], cells[n1:]):
+                        add(a, b)
+            elif not isinstance(lhs, sp.Function):
+                add(lhs, rhs)
+        elif isinstance(cond, sp.Ne) and not d:
+            add(*cond.args)
+    return sub
